@@ -22,7 +22,7 @@ theorem fwStep_row_perm [Inhabited α] (G : Mat α) (m : Nat) (hG : SymmSquare G
     (hgap : 0 < (argminGap (matVec G a)).2) :
     (fwStep (permV p (G.map (permV p))) (permV p a)).1 = permV p (fwStep G a).1 ∧
     (fwStep (permV p (G.map (permV p))) (permV p a)).2.1 = (fwStep G a).2.1 := by
-  sorry
+  exact PermL.fwStep_row_perm' G m hG a ha p hp hgap
 
 /-- MGDA: if the decision margin reported by the model for the run on `G` is positive (no tie in any
     argmin, no equality in any branch test), the weights for the permuted problem are the permuted weights -/
@@ -31,7 +31,8 @@ theorem mgda_row_perm_of_margin [Inhabited α] (G : Mat α) (m : Nat) (hm : 0 < 
     (hmargin : 0 < (mgdaWeights G m (1 / (m : α)) epsilon K).2) :
     (mgdaWeights (permV p (G.map (permV p))) m (1 / (m : α)) epsilon K).1 =
       permV p (mgdaWeights G m (1 / (m : α)) epsilon K).1 := by
-  sorry
+  have _ := hm
+  exact PermL.mgda_row_perm' G m hG (1 / (m : α)) epsilon K p hp hmargin
 
 /-- IMTL-G (independent rows: `G v = d` has a unique solution) -/
 theorem imtlg_row_perm [Inhabited α] (J : Mat α) (m n : Nat) (hJ : MatWF J m n) (d : Vec α)
@@ -41,7 +42,7 @@ theorem imtlg_row_perm [Inhabited α] (J : Mat α) (m n : Nat) (hJ : MatWF J m n
     (w w' : Vec α) (h : imtlgWeights J d guard = some w)
     (h' : imtlgWeights (permV p J) (permV p d) guard = some w') :
     combine n (permV p J) w' = combine n J w := by
-  sorry
+  exact PermL.imtlg_row_perm' J m n hJ d hd guard p hp huniq w w' h h'
 
 /-- ConFIG (independent rows: the unit-row Gramian system has a unique solution) -/
 theorem config_row_perm [Inhabited α] (J : Mat α) (m n : Nat) (hJ : MatWF J m n) (d w : Vec α)
@@ -51,7 +52,7 @@ theorem config_row_perm [Inhabited α] (J : Mat α) (m n : Nat) (hJ : MatWF J m 
         matVec (gram (List.zipWith (fun row di => row.map (· / di)) J d)) y' = w → y = y')
     (x x' : Vec α) (h : configVec J d w n = some x)
     (h' : configVec (permV p J) (permV p d) (permV p w) n = some x') : x' = x := by
-  sorry
+  exact PermL.config_row_perm' J m n hJ d w hd hw p hp huniq x x' h h'
 
 /-- Aligned-MTL: permuting the rows permutes the entries of the eigenvectors; the balance
     transformation is conjugated by the permutation -/
@@ -60,12 +61,12 @@ theorem aligned_row_perm [Inhabited α] (J : Mat α) (m n : Nat) (hJ : MatWF J m
     (hp : p.Perm (List.range m)) (hcert : alignedCert (gram J) vecs sigma = true) (hs : sigma ≠ []) :
     alignedWeights (permV p J) (vecs.map (permV p)) sigma (permV p w) =
       (alignedWeights J vecs sigma w).map (permV p) := by
-  sorry
+  exact PermL.aligned_row_perm' J m n hJ vecs sigma w hv hw p hp hcert hs
 
 /-- C11 (continued): Krum's selection is invariant under positive scaling of the distances, hence Krum is
     positively homogeneous -/
 theorem krum_weights_scale_invariant (D : Mat α) (f k : Nat) (t : α) (ht : 0 < t) :
     (krumWeights (D.map (smul t)) f k).1 = (krumWeights D f k).1 := by
-  sorry
+  exact PermL.krumWeights_scale D f k t ht
 
 end Tjd.Props.C10
